@@ -41,8 +41,8 @@ contract(LG + 'factory.Factory.__call__', returns='Opaque[PyVal]', modifies=['se
 model('LogfileSection', fields={'path': 'str', 'max_size': 'int', 'old_files': 'int', 'when': 'Opt[str]',
                                 'interval': 'int', 'encoding': 'Opt[str]', 'delay': 'bool',
                                 'level': 'int'}, external=True)
-model(LG + 'handlers.HandlerFactory', fields={'section': 'Ref[LogfileSection]', 'create_formatter': 'Opaque[PyVal]'})
-assumed('new:' + LG + 'formatter.FormatterFactory', params={'section': 'Ref[LogfileSection]'}, returns='Opaque[PyVal]',
+model(LG + 'handlers.HandlerFactory', fields={'section': 'Ref[LogfileSection]', 'create_formatter': 'Fun[mkfmt]'})
+assumed('new:' + LG + 'formatter.FormatterFactory', params={'section': 'Ref[LogfileSection]'}, returns='Fun[mkfmt]',
         notes='the formatter factory (format / style validation happens in its datatypes): not verified')
 contract(LG + 'handlers.HandlerFactory.__init__', params={'section': 'Ref[LogfileSection]'},
          ensures=[Clause('self.section == section and self.instance == FACTORY_MARKER', label='stores-section')])
@@ -149,3 +149,24 @@ contract(LG + 'logger.LoggerFactory.create', returns='Ref[ext:logging.Logger]',
                          label='the-named-logger-with-the-configured-level'),
                   Clause('result.propagate == self.propagate', carries='C20', label='configured-propagate-flag')],
          raises=[Raise('Exception+', label='a-handler-factory-failed')])
+
+# ---- a handler factory builds the handler, gives it the configured formatter and level (C20) -------------------------
+model('ext:logging.Handler', fields={'level': 'int', 'formatter': 'Opt[Opaque[PyVal]]'}, external=True, bases=['LogHandler'])
+assumed('ext:logging.Handler.setFormatter', self_type='ext:logging.Handler', params={'fmt': 'Opaque[PyVal]'},
+        modifies=['self.formatter'], ensures=[Clause('self.formatter == fmt')], notes='logging.Handler.setFormatter')
+assumed('ext:logging.Handler.setLevel', self_type='ext:logging.Handler', params={'level': 'int'},
+        modifies=['self.level'], ensures=[Clause('self.level == level')], notes='logging.Handler.setLevel (an int level)')
+MODELS[LG + 'handlers.HandlerFactory'].fields['create_formatter'] = 'Fun[mkfmt]'
+prim('fmt_made', 'Fun[mkfmt] -> Opaque[PyVal]')
+assumed('fun:mkfmt', params={'fn': 'Fun[mkfmt]'}, returns='Opaque[PyVal]', pure=True,
+        ensures=[Clause('result == fmt_made(fn)')], raises=[Raise('Exception+')],
+        notes='the formatter factory of the section (formatter.FormatterFactory.__call__): builds the formatter for the '
+              'configured format and style, may raise (known findings KF-C20-format-*)')
+assumed(LG + 'handlers.HandlerFactory.create_loghandler', returns='Ref[ext:logging.Handler]', fresh_result=True,
+        ensures=[Clause('fresh(result)')], raises=[Raise('Exception+')],
+        notes='abstract method: the handler object for the section (file, syslog, http, smtp, event log: not verified)')
+contract(LG + 'handlers.HandlerFactory.create', returns='Ref[ext:logging.Handler]', fresh_result=True,
+         ensures=[Clause('fresh(result) and result.level == self.section.level', carries='C20', label='a-new-handler-with-the-configured-level'),
+                  Clause('result.formatter == fmt_made(self.create_formatter)', carries='C20',
+                         label='and-the-formatter-built-from-the-configured-format')],
+         raises=[Raise('Exception+', label='building-the-handler-or-the-formatter-failed')])
